@@ -48,6 +48,9 @@ type constructorNode struct {
 	// Whether the constructor owned by this node was already called.
 	called bool
 
+	// Whether the arguments of this constructor are currently being built.
+	onStack bool
+
 	// Type information about constructor parameters.
 	paramList paramList
 
@@ -144,6 +147,13 @@ func (n *constructorNode) Call(c containerStore) (err error) {
 	if n.called {
 		return nil
 	}
+
+	if n.onStack {
+		// The constructor is needed to build its own arguments.
+		return n.s.cycleDetectedError(nil, n)
+	}
+	n.onStack = true
+	defer func() { n.onStack = false }()
 
 	if err := shallowCheckDependencies(c, n.paramList); err != nil {
 		return errMissingDependencies{
